@@ -269,3 +269,61 @@ Proof.
   - apply member_not_in in M. unfold sum_bal, energy_sub. destruct (amt =? 0); [reflexivity|].
     destruct (_ <? amt); [reflexivity|]. unfold set_energy, set_acc; cbn [fst l_acc]. rewrite sumf_upd_notin by exact M. reflexivity.
 Qed.
+
+(* ------------------------------------------------------------------ exact totals along ANY op list, self-destructs to self included *)
+Lemma op_totals_exact T S l o dom : NoDup dom -> covers dom o ->
+  sum_bal dom (l_acc (apply_op T S l o)) = sum_bal dom (l_acc l) - fst (burned T S l [o]) /\
+  sum_eng T S dom (l_acc (apply_op T S l o)) = sum_eng T S dom (l_acc l) + energy_delta T S l o - snd (burned T S l [o]).
+Proof.
+  intros ND C. destruct (self_destruct_to_self o) eqn:SS.
+  - destruct o; try discriminate. cbn in SS. apply Z.eqb_eq in SS. subst r.
+    assert (In c dom) by (apply C; left; reflexivity).
+    destruct (suicide_self_burns_lemma T S l c dom ND H) as [A B]. rewrite A, B.
+    cbn [burned energy_delta]. rewrite Z.eqb_refl. cbn [fst snd]. split; lia.
+  - rewrite vet_conserved_op, vtho_delta_op by assumption.
+    destruct o; cbn [burned fst snd]; try (split; lia). cbn in SS. rewrite SS. cbn [fst snd]. split; lia.
+Qed.
+
+Lemma burned_cons T S l o t :
+  burned T S l (o :: t) = (fst (burned T S l [o]) + fst (burned T S (apply_op T S l o) t),
+                           snd (burned T S l [o]) + snd (burned T S (apply_op T S l o) t)).
+Proof.
+  cbn [burned]. destruct (burned T S (apply_op T S l o) t) as [b e]. cbn [fst snd].
+  destruct o; try (cbn; f_equal; lia). destruct (c =? r); cbn [fst snd]; f_equal; lia.
+Qed.
+
+Lemma ops_totals_exact T S os : forall l dom, NoDup dom -> (forall o, In o os -> covers dom o) ->
+  sum_bal dom (l_acc (apply_ops T S l os)) = sum_bal dom (l_acc l) - fst (burned T S l os) /\
+  sum_eng T S dom (l_acc (apply_ops T S l os)) = sum_eng T S dom (l_acc l) + energy_delta_ops T S l os - snd (burned T S l os).
+Proof.
+  induction os as [|o t IH]; intros l dom ND H; [cbn; split; lia|].
+  unfold apply_ops in *. cbn [fold_left energy_delta_ops]. rewrite burned_cons. cbn [fst snd].
+  destruct (IH (apply_op T S l o) dom ND ltac:(intros; apply H; right; assumption)) as [A B].
+  destruct (op_totals_exact T S l o dom ND (H o (or_introl eq_refl))) as [C D]. rewrite A, B, C, D. split; lia.
+Qed.
+
+Lemma clause_ops_no_delta T S os : forall l, (forall o, In o os -> clause_kind o = true) -> energy_delta_ops T S l os = 0.
+Proof.
+  induction os as [|o t IH]; intros l H; [reflexivity|]. cbn [energy_delta_ops].
+  rewrite IH by (intros; apply H; right; assumption).
+  pose proof (H o (or_introl eq_refl)) as K. destruct o; cbn in K; try discriminate; reflexivity.
+Qed.
+
+Lemma burned_none T S os : forall l, (forall o, In o os -> self_destruct_to_self o = false) -> burned T S l os = (0, 0).
+Proof.
+  induction os as [|o t IH]; intros l H; [reflexivity|]. cbn [burned].
+  rewrite IH by (intros; apply H; right; assumption).
+  pose proof (H o (or_introl eq_refl)) as K. destruct o; try reflexivity. cbn in K. rewrite K. reflexivity.
+Qed.
+
+Lemma untouched_ops T S os a : forall l, (forall o, In o os -> ~ In a (touches o)) -> l_acc (apply_ops T S l os) a = l_acc l a.
+Proof.
+  induction os as [|o t IH]; intros l H; [reflexivity|]. unfold apply_ops in *. cbn [fold_left].
+  rewrite IH by (intros; apply H; right; assumption). apply untouched_op. apply H. left. reflexivity.
+Qed.
+
+Lemma sumf_ext f dom (s1 s2 : accts) : (forall a, In a dom -> s1 a = s2 a) -> sumf f dom s1 = sumf f dom s2.
+Proof.
+  induction dom as [|x t IH]; intros H; [reflexivity|]. cbn. rewrite (H x (or_introl eq_refl)).
+  rewrite IH by (intros; apply H; right; assumption). reflexivity.
+Qed.
